@@ -117,7 +117,7 @@ func (g *gtrans) forStmt(s *ast.ForStmt, rest []ast.Stmt, e *genv, k gcont) {
 	}
 	ea := e.clone()
 	for _, st := range ea.st {
-		st.entry, st.destr = true, false
+		st.entry, st.destr, st.carry = true, false, false
 	}
 	sOut, sLive, sSaw, sClosers := g.out, g.liveIn, g.sawFuel, g.closers
 	g.out, g.liveIn, g.sawFuel, g.closers = &strings.Builder{}, map[*gv]bool{}, false, nil
@@ -194,7 +194,7 @@ func (g *gtrans) forStmt(s *ast.ForStmt, rest []ast.Stmt, e *genv, k gcont) {
 		eb := e.clone()
 		eb.ind = "    "
 		for v, st := range eb.st {
-			st.destr, st.entry = false, false
+			st.destr, st.entry, st.carry = false, false, false
 			if inState[v] || containsGv(ro, v) {
 				st.defined, st.initial = true, false
 			} else if assigned[v] {
